@@ -302,7 +302,7 @@ func RunMain(id, tier string, only int, seedOverride *int64) int {
 		fmt.Printf("KNOWN-FINDING: property=%s %s [%s]\n", id, knownSeen[k], k)
 	}
 
-	distinct := len(total.Signatures)
+	distinct := len(total.Signatures) + int(total.Counters["distinct_by_enumeration"])
 	exit := 0
 	keyHist := map[string]int{}
 	for _, v := range total.Violations {
